@@ -1,5 +1,6 @@
 mod common;
 mod engine;
+mod probe;
 mod props;
 mod refmodel;
 mod registry;
@@ -58,6 +59,120 @@ fn main() {
             .collect();
         for h in hits {
             println!("{}", h);
+        }
+        std::process::exit(0);
+    }
+    if args[1] == "tool" && args.get(2).map(|s| s.as_str()) == Some("pattern-messages") {
+        // one-off search: messages whose hash-to-curve point (signature under sk = 1) or whose signature under the
+        // derived key has a coordinate next to the modulus / with leading zero bits
+        use blsful::*;
+        use rayon::prelude::*;
+        let n: u32 = args.get(3).and_then(|s| s.parse().ok()).unwrap_or(400_000);
+        let kb = common::key_alphabet(1, false).be[3];
+        let hits: Vec<String> = (0..n)
+            .into_par_iter()
+            .flat_map_iter(|i| {
+                let msg = format!("verif pattern message #{}", i);
+                let mut out = vec![];
+                let hi = |b: &[u8], off: usize| (((b[off] & if off == 0 { 0x1f } else { 0xff }) as u16) << 8) | b[off + 1] as u16;
+                fn sigs<C: common::Suite>(kb: &[u8; 32], m: &[u8]) -> (Vec<u8>, Vec<u8>) {
+                    let one = SecretKey::<C>(common::sc_from_be::<C>(&{
+                        let mut o = [0u8; 32];
+                        o[31] = 1;
+                        o
+                    }));
+                    let k = SecretKey::<C>(common::sc_from_be::<C>(kb));
+                    (common::pt(one.sign(SignatureSchemes::Basic, m).unwrap().as_raw_value()), common::pt(k.sign(SignatureSchemes::Basic, m).unwrap().as_raw_value()))
+                }
+                let (h1, s1) = sigs::<Bls12381G1Impl>(&kb, msg.as_bytes());
+                let (h2, s2) = sigs::<Bls12381G2Impl>(&kb, msg.as_bytes());
+                for (name, b, off) in [("g1.hash", &h1, 0usize), ("g1.sig", &s1, 0), ("g2.hash.x1", &h2, 0), ("g2.sig.x1", &s2, 0), ("g2.hash.x0", &h2, 48), ("g2.sig.x0", &s2, 48)] {
+                    let v = hi(b, off);
+                    if v == 0x1a01 {
+                        out.push(format!("{} top {}", name, i));
+                    }
+                    if v == 0 {
+                        out.push(format!("{} zero {}", name, i));
+                    }
+                }
+                out
+            })
+            .collect();
+        for h in hits {
+            println!("{}", h);
+        }
+        std::process::exit(0);
+    }
+    if args[1] == "tool" && args.get(2).map(|s| s.as_str()) == Some("pattern-tails") {
+        // one-off search: encodings (public key, proof of possession, signatures of the three schemes) that END in
+        // bytes a text-minded decoder might strip (CR LF, LF, NUL NUL, two spaces) or START with the first three bytes
+        // of the field modulus
+        use blsful::*;
+        use rayon::prelude::*;
+        let n: u32 = args.get(3).and_then(|s| s.parse().ok()).unwrap_or(300_000);
+        let kb = common::key_alphabet(1, false).be[3];
+        fn scan<C: common::Suite>(g: &str, i: u32, kb: &[u8; 32], out: &mut Vec<String>) {
+            let seed = format!("verif pattern key #{}", i);
+            let k = SecretKey::<C>::from_hash(seed.as_bytes());
+            let fixed = SecretKey::<C>(common::sc_from_be::<C>(kb));
+            let msg = format!("verif pattern message #{}", i);
+            let mut items: Vec<(String, Vec<u8>)> = vec![(format!("{}.pk", g), Vec::<u8>::from(&k.public_key())), (format!("{}.pop", g), Vec::<u8>::from(&k.proof_of_possession().unwrap()))];
+            for (sn, s) in [("basic", SignatureSchemes::Basic), ("aug", SignatureSchemes::MessageAugmentation), ("pop", SignatureSchemes::ProofOfPossession)] {
+                items.push((format!("{}.sig-{}", g, sn), common::pt(fixed.sign(s, msg.as_bytes()).unwrap().as_raw_value())));
+            }
+            for (name, b) in items {
+                let l = b.len();
+                let tail = (b[l - 2], b[l - 1]);
+                let cls = match tail {
+                    (0x0d, 0x0a) => Some("crlf"),
+                    (0x00, 0x00) => Some("nulnul"),
+                    (0x20, 0x20) => Some("spaces"),
+                    (0x0a, 0x0a) => Some("lflf"),
+                    _ => None,
+                };
+                if let Some(c) = cls {
+                    out.push(format!("{} tail-{} {}", name, c, i));
+                }
+                if (b[0] & 0x1f) == 0x1a && b[1] == 0x01 && b[2] == 0x11 {
+                    out.push(format!("{} head-1a0111 {}", name, i));
+                }
+                if (b[0] & 0x1f) == 0x1a {
+                    out.push(format!("{} head-1a {}", name, i));
+                }
+                if l == 96 && b[48] == 0x1a {
+                    out.push(format!("{} second-coordinate-1a {}", name, i));
+                }
+            }
+        }
+        let hits: Vec<String> = (0..n)
+            .into_par_iter()
+            .flat_map_iter(|i| {
+                let mut out = vec![];
+                scan::<Bls12381G1Impl>("g1impl", i, &kb, &mut out);
+                scan::<Bls12381G2Impl>("g2impl", i, &kb, &mut out);
+                out
+            })
+            .collect();
+        for h in hits {
+            println!("{}", h);
+        }
+        std::process::exit(0);
+    }
+    if args[1] == "tool" && args.get(2).map(|s| s.as_str()) == Some("check-patterns") {
+        // prints the leading bytes of the encodings derived from the hard-coded pattern keys named "...1a0111"
+        use blsful::*;
+        for (name, kb) in common::pattern_keys(1).into_iter().filter(|(n, _)| n.contains("1a0111")) {
+            let k1 = common::sk_from_be::<Bls12381G1Impl>(&kb).unwrap();
+            let k2 = common::sk_from_be::<Bls12381G2Impl>(&kb).unwrap();
+            let h = |b: Vec<u8>| hex::encode(&b[..4]);
+            println!(
+                "{}: G2 pk {} G1 pk {} G1 pop {} G2 pop {}",
+                name,
+                h(Vec::<u8>::from(&k1.public_key())),
+                h(Vec::<u8>::from(&k2.public_key())),
+                h(Vec::<u8>::from(&k1.proof_of_possession().unwrap())),
+                h(Vec::<u8>::from(&k2.proof_of_possession().unwrap()))
+            );
         }
         std::process::exit(0);
     }
